@@ -17,6 +17,15 @@ use std::cell::Cell;
 
 pub type Score = i16;
 
+/// Read access to the board types for the verification harness
+#[cfg(daniel729_chess_verif)]
+#[allow(unused_imports)]
+pub mod verif_access {
+    pub use super::gamestate::GameState;
+    pub use super::piece::{Piece, PieceType};
+    pub use super::position::Position;
+}
+
 #[derive(PartialEq, Eq, Clone, Copy, Debug)]
 pub enum GamePhase {
     Opening,
@@ -514,6 +523,8 @@ impl Game {
         self.current_player = self.current_player.the_other();
         self.hash ^= zobrist::BLACK_TO_MOVE;
         self.hash ^= self.state().hash(); // SAFETY: The game will not be longer than 512 moves
+        #[cfg(daniel729_chess_verif)]
+        crate::verif_hooks::on_state_push(self.state.len(), self.state.capacity());
         unsafe {
             self.state.push_unchecked(state);
         }
@@ -698,6 +709,8 @@ impl Game {
         let mut push = |_move| {
             // SAFETY: The number of possible moves on the board at any given time
             // will never exceed the arrays capacity (256)
+            #[cfg(daniel729_chess_verif)]
+            crate::verif_hooks::on_move_push(moves.len(), moves.capacity());
             unsafe {
                 moves.push_unchecked(_move);
             }
